@@ -1,7 +1,7 @@
 (* Properties_C09.v — CPCA super scores are the PCA scores of the block-scaled concatenation. *)
 From Coq Require Import ZArith Floats.
 From mathcomp Require Import all_ssreflect all_algebra.
-From LS Require Import NumOps RcfOps F64Ops Kernels Preprocess Pca Cpca CpcaSpec PlsSpec Gen_Params.
+From LS Require Import NumOps RcfOps F64Ops Kernels Preprocess Pca Cpca CpcaSpec CpcaRefine PlsSpec Gen_Params.
 Set Implicit Arguments. Unset Strict Implicit. Unset Printing Implicit Defensive.
 Import Order.TTheory GRing.Theory Num.Theory.
 Local Open Scope ring_scope.
@@ -44,5 +44,30 @@ End Variance.
 Theorem C09_threshold_is_the_sources : QArith_base.Qeq_bool (lq lit_CPCACONV) c_CPCACONVERGENCE = true.
 Proof. by vm_compute. Qed.
 
+(* refinement of the EXECUTABLE pass to those matrix-level objects, any real closed field, blocks without missing-coded cells:
+   for every block the list program computes phat_b = (X_b' t)/|X_b' t| (the factor 1/t't cancels) and the block score
+   t_b = X_b phat_b / sf_b; from the block scores TT (one row per block) it computes w = (TT t)/|TT t| and the new super score
+   TT' w = sum_b w_b t_b — the quantities phat, tb, w, t_new of the step theorem above *)
+Theorem C09_block_scores_refine (R : rcfType) n m (E : seq (seq R)) (t : seq R) (sf : R) :
+  wf n m E -> (0 < n)%N -> size t = n -> cleanm E -> cleanv t -> (0 < NipalsSpec.dot (cv_of n t) (cv_of n t))%R ->
+  let pl := block_loadings E t in
+  let pb := vnormalize pl in
+  let tb := map (fun x => (x / sf)%R) (matvec_into E pb (zeros (size E))) in
+  cleanv (matvec_into (transpose (ncols E) E) t (zeros (ncols E))) -> cleanv pl -> cleanv pb ->
+  [/\ cv_of m pl = ((NipalsSpec.dot (cv_of n t) (cv_of n t))^-1 *: ((mx_of n m E)^T *m cv_of n t))%R,
+      cv_of m pb = NipalsSpec.normalize ((mx_of n m E)^T *m cv_of n t)%R &
+      cv_of n tb = (sf^-1 *: (mx_of n m E *m NipalsSpec.normalize ((mx_of n m E)^T *m cv_of n t)))%R].
+Proof. exact: block_scoreE. Qed.
+Theorem C09_pass_refines (R : rcfType) B n (Eb : seq (seq (seq R))) (sf t : seq R) :
+  let TT := block_scores Eb sf t in
+  wf B n TT -> (0 < B)%N -> size t = n -> cleanm TT -> cleanv t -> (0 < NipalsSpec.dot (cv_of n t) (cv_of n t))%R ->
+  let: (TT', w, t_new, mod_t) := cpca_pass Eb sf t in
+  cleanv (map (fun x => (x / vdot t t)%R) (matvec_into TT t (zeros (size TT)))) -> cleanv w ->
+  [/\ TT' = TT, mod_t = NipalsSpec.dot (cv_of n t) (cv_of n t),
+      cv_of B w = NipalsSpec.normalize (mx_of B n TT *m cv_of n t)%R &
+      cv_of n t_new = ((mx_of B n TT)^T *m NipalsSpec.normalize (mx_of B n TT *m cv_of n t))%R].
+Proof. exact: cpca_pass_from_block_scores. Qed.
 Print Assumptions C09_step_equivalence.
+Print Assumptions C09_block_scores_refine.
+Print Assumptions C09_pass_refines.
 Print Assumptions C09_block_residual_decreases.
